@@ -91,7 +91,7 @@ def leaf(draw, time_pool=TIMES, allow_maps=True, allow_noop=True):
         elif attr == "tag":
             rhs = draw(st.sampled_from(W_TVALS))
         else:
-            rhs = draw(st.sampled_from(W_FVALS + [0.0, 1.0, -1]))
+            rhs = draw(st.sampled_from(W_FVALS + [0.0, 1.0, -1, -2]))
         test = ["cmp", op, rhs]
     elif r < 13 and attr in ("tag", "field"):
         test = ["exists"]
